@@ -36,15 +36,16 @@ CHECKS['C25'] = dict(
     variants=['asan'],
     targets=['build/bin/c25'],
     binaries=['build/bin/c25'],
-    quick=dict(runs=12000, workers=16, chunk=25, wall_cap=600),
+    quick=dict(runs=60000, workers=16, chunk=25, wall_cap=600),
     thorough=dict(runs=300000, workers=16, chunk=25, wall_cap=3000),
     run_timeout=60,
+    exec_timeout=60,
     shrink_ints=['i', 'j', 'v', 'rows', 'cols'],
     shrink_keys=['ops', 'entries', 'exprs'],
     expected_probes=['set_insert_front', 'set_insert_middle', 'set_insert_back', 'set_overwrite', 'set_delete',
                      'set_delete_last_in_row', 'set_zero_on_absent', 'set_insert_empty_row', 'coo_with_duplicates',
                      'binop_entry_cancelled', 'matmat_entry_cancelled', 'matmat_B_wider_than_A',
-                     'unary_op_on_non_square'],
+                     'unary_op_on_non_square', 'oversized_entries_replaced'],
     rule=('one run = a seeded history (10-170 steps) over a pool of 1-4 CSR matrices (<=8x8), each in lock step with a '
           'dense reference: set/get, from_coo with duplicate and cancelling coordinates, transpose (both forms), '
           'conjugate, conjugate_transpose, csr_binop_csr_canonical add/sub/mul, elementwise_mul_matrix, two-pass '
@@ -58,6 +59,7 @@ CHECKS['C25'] = dict(
     assumptions=['DenseMatrix operations are the reference (C24 not re-verified here)',
                  'values compared by eq or expand(a-b)==0; entries are numbers and monomials',
                  'csr_matmat_pass2 result is compared by value only (it neither sorts columns nor shrinks arrays, as in SciPy)',
+                 'entries of pool members are kept below 40 expression nodes: a result with a larger entry is checked and then replaced (CSR and dense alike) by a matrix with the same sparsity pattern and small values, so chains of symbolic products cannot grow without bound (they took minutes per run and tripped the watchdog before)',
                  'matrices up to 8x8; ASan/UBSan report every memory error executed', 'sampling, not proof'],
 )
 
@@ -91,7 +93,7 @@ CHECKS['C18'] = dict(
     variants=['asan'],
     targets=['build/bin/c18'],
     binaries=['build/bin/c18'],
-    quick=dict(runs=12000, workers=16, chunk=20, wall_cap=600),
+    quick=dict(runs=60000, workers=16, chunk=20, wall_cap=600),
     thorough=dict(runs=300000, workers=16, chunk=20, wall_cap=3000),
     run_timeout=90,
     exec_timeout=90,
@@ -109,7 +111,9 @@ CHECKS['C18'] = dict(
     state_measure='not tracked (distinct event logs are the measure)',
     components=dict(real=REAL_COMMON + ['Parser, SbmlParser, tokenizers, bison parsers, all constructors reached from grammar actions'],
                     stub=['sequence of inputs and input faults (seeded plan)']),
-    assumptions=['inputs that could legitimately take very long (towers of powers, special functions of huge arguments) are filtered out by a conservative syntactic predicate and not run',
+    assumptions=['inputs that could legitimately take very long or exhaust memory (towers of powers; special functions of literals with more than 4 digits or with exponents; two or more special functions in one input, e.g. gamma(gamma(18)); zeta/dirichlet_eta/polygamma of literals above 99, which compute Bernoulli numbers quadratically) are filtered out by a conservative syntactic predicate and not run (probe skipped_potentially_expensive)',
+                 'inputs of the listed known finding (lowergamma/uppergamma with a literal of 4 or more digits inside the argument list) are left out of random exploration and replayed from known/C18/*.json instead (probe skipped_known_finding_family)',
+                 'hang = the run, alone in a fresh process, is still in the same step after 4 watchdog periods (6 minutes); a watchdog kill inside the loaded batch that completes when run alone is recorded as a slow run, not as a violation',
                  'safety clause: only mutations of grammar-generated strings are explored (coverage-guided fuzzing of arbitrary byte strings is a different technique and is not claimed)',
                  'inputs <= 2500 bytes; ASan/UBSan report every memory error / UB executed', 'sampling, not proof'],
 )
